@@ -8,7 +8,8 @@ Specification: `PdfVerif.Spec.PageTree`.
 
 Only property theorems live here (helper lemmas: `Lemmas/PageTree.lean`).
 -/
-import PdfVerif.Lemmas.PageGraph
+import PdfVerif.Lemmas.PageOrder
+import PdfVerif.Lemmas.PageSelect
 
 namespace PdfVerif.Props.C04
 open PdfVerif PdfVerif.PageTree PdfVerif.Gen.PageTree PdfVerif.Gen.Utils
@@ -95,7 +96,7 @@ def exStore : Store :=
       ("Rotate", .atom (.int (-90))),
       ("MediaBox", .arr [.atom (.int 0), .atom (.int 0), .atom (.ref 9), .atom (.int 100)])]),
    (3, .node [("Type", .atom (.name "Pages")), ("Kids", .atom (.ref 8)),
-      ("Resources", .dict [("Marker", .int 7)])]),
+      ("Resources", .dict [("Marker", .atom (.int 7))])]),
    (8, .val (.arr [.atom (.ref 4)])),
    (9, .val (.atom (.int 200))),
    (4, .node [("Type", .atom (.name "Page"))]),
@@ -189,6 +190,68 @@ theorem C04_graph_inherit (g : Store) (catalog : Dict) (r fuel : Nat)
   subst this
   exact ⟨path, h1, h2, by simpa using h3, by simpa using h4⟩
 
+/-- **Depth-first order on graphs, against an algorithm-independent specification.** Whatever the
+Kids graph (shared nodes, repeated kids, cycles, self loops, direct dictionaries), when the walk
+ends normally the indirect pages it yields are exactly `specOrder g r`: the Page nodes in the order
+in which the depth-first enumeration of *all simple Kids paths* from the root first arrives at
+them. That specification has no visited set and no state shared between branches (a branch ends
+only where it would return to one of its own ancestors); the visited set of the code is shown to
+be an optimisation that never changes the result. -/
+theorem C04_graph_order (g : Store) (catalog : Dict) (r : Nat)
+    (hroot : dget catalog "Pages" = some (.atom (.ref r)))
+    (herr : (treeWalk g (g.length + 1) catalog).err = none) :
+    (treeWalk g (g.length + 1) catalog).pages.filterMap (·.id) = specOrder g r := by
+  unfold treeWalk at herr ⊢
+  rw [hroot] at herr ⊢
+  simp only at herr ⊢
+  have h := (visit_order g (g.length + 1) (.atom (.ref r)) catalog [] []
+    (fun m hm => by simp at hm) (fun a ha => by simp at ha) herr).1
+  simpa [specOrder, kidLeaves, kidId] using h
+
+/-- The path budget of `specOrder` cuts no simple path: any larger budget lists the same. -/
+theorem C04_path_budget (g : Store) (r d : Nat) :
+    pathLeaves g (g.length + 1 + d) [] r = pathLeaves g (g.length + 1) [] r :=
+  pathLeaves_stable g [] r d
+
+/-- On a page tree the graph specification is the leaf order of the tree specification. -/
+theorem C04_order_specs_agree (g : Store) (t : PTree) (catalog : Dict)
+    (hE : Embeds g t) (hroot : dget catalog "Pages" = some (.atom (.ref t.id)))
+    (hcat : ∀ k ∈ INHERITABLE_ATTRS, dget catalog k = none)
+    (hnd : t.ids.Nodup) (hf : t.ids.length ≤ g.length + 1) :
+    specOrder g t.id = (specLeaves t []).map (·.1) := by
+  obtain ⟨he, hp⟩ := C04_order g t catalog (g.length + 1) hE hroot hcat hnd hf
+  rw [← C04_graph_order g catalog t.id hroot he]
+  have : ∀ (l : List RawPage) (m : List Nat), l.map (·.id) = m.map some → l.filterMap (·.id) = m := by
+    intro l
+    induction l with
+    | nil => intro m h; cases m with
+      | nil => rfl
+      | cons _ _ => simp at h
+    | cons x xs ih =>
+      intro m h
+      cases m with
+      | nil => simp at h
+      | cons y ys =>
+        simp only [List.map_cons, List.cons.injEq] at h
+        simp only [List.filterMap_cons, h.1]
+        rw [ih ys h.2]
+  apply this
+  rw [hp]; simp [List.map_map, Function.comp_def]
+
+/-- A cycle `2 → 3 → 2` with pages hanging behind the point where it closes, and a Page (6) shared
+by two nodes: the path enumeration arrives at 5 (below 3) before 4 and 6, as the walk does. -/
+example :
+    let g : Store :=
+      [(2, .node [("Type", .atom (.name "Pages")), ("Kids", .arr [.atom (.ref 3), .atom (.ref 4), .atom (.ref 6)])]),
+       (3, .node [("Type", .atom (.name "Pages")), ("Kids", .arr [.atom (.ref 2), .atom (.ref 5), .atom (.ref 6)])]),
+       (4, .node [("Type", .atom (.name "Page"))]),
+       (5, .node [("Type", .atom (.name "Page"))]),
+       (6, .node [("Type", .atom (.name "Page"))])]
+    pathLeaves g 6 [] 2 = [5, 6, 4, 6] ∧ specOrder g 2 = [5, 6, 4] ∧
+    (treeWalk g 6 [("Pages", .atom (.ref 2))]).err = none ∧
+    (treeWalk g 6 [("Pages", .atom (.ref 2))]).pages.map (·.id) = [some 5, some 6, some 4] := by
+  decide
+
 /-- A Page (6) shared by two Pages nodes with different Rotate: it is yielded once, with the Rotate
 of the node through which it is reached first (3), not of the later one (4). -/
 example :
@@ -209,8 +272,8 @@ object number, the direct Pages node is ignored. -/
 example :
     let g : Store :=
       [(2, .node [("Type", .atom (.name "Pages")),
-            ("Kids", .arr [.atom (.ref 3), .atom (.ref 2), .dict [("Type", .name "Page")], .atom (.ref 3),
-              .dict [("Type", .name "Pages"), ("Kids", .ref 2)], .atom (.ref 4)])]),
+            ("Kids", .arr [.atom (.ref 3), .atom (.ref 2), .dict [("Type", .atom (.name "Page"))], .atom (.ref 3),
+              .dict [("Type", .atom (.name "Pages")), ("Kids", .atom (.ref 2))], .atom (.ref 4)])]),
        (3, .node [("Type", .atom (.name "Page"))]),
        (4, .node [("Type", .atom (.name "Pages")), ("Kids", .arr [.atom (.ref 2), .atom (.ref 5)])]),
        (5, .node [("Type", .atom (.name "Page"))])]
@@ -220,8 +283,39 @@ example :
       = ([some 3, none, some 5], [5, 4, 3, 2], none) := by
   decide
 
+/-- **Values nest to any depth.** A Page dictionary written directly into Kids — with a direct
+MediaBox array, a direct Resources dictionary holding a direct Font dictionary — is yielded without
+object number, its attributes being its own or the inherited ones; an array written into Kids is
+ignored, whatever it contains. (Outside the property's domain; part of the model's value space.) -/
+theorem C04_direct_kid (g : Store) (f : Nat) (kvs : Flat) (xs : List Val) (P : Dict) (vis : List Nat)
+    (hty : isName (nodeType kvs) "Page" = true) :
+    visit g (f + 1) (.dict kvs) P vis = ⟨[⟨none, overlay P kvs⟩], vis, none⟩ ∧
+    visit g (f + 1) (.arr xs) P vis = ⟨[], vis, none⟩ := by
+  have hne : isName (nodeType kvs) "Pages" = false := by
+    simp only [isName, beq_iff_eq] at hty ⊢
+    rw [hty]; decide
+  constructor
+  · simp [visit, nodeOf, liftFlat, nodeType_overlay, hty, hne]
+  · have h1 : nodeType (overlay P []) = none := by rw [nodeType_overlay]; rfl
+    simp [visit, nodeOf, h1, isName]
+
+example :
+    let g : Store :=
+      [(2, .node [("Type", .atom (.name "Pages")), ("Rotate", .atom (.int 90)),
+            ("Kids", .arr [.arr [.atom (.ref 2)],
+              .dict [("Type", .atom (.name "Page")),
+                     ("MediaBox", .arr [.atom (.int 300), .atom (.int 2), .atom (.int 100), .atom (.int 10)]),
+                     ("Resources", .dict [("Font", .dict [("F1", .atom (.ref 3))]), ("Marker", .atom (.int 7))])],
+              .atom (.ref 5)])]),
+       (5, .node [("Type", .atom (.name "Page")),
+            ("CropBox", .arr [.atom (.int 0), .atom (.int 0), .arr [.atom (.int 1)], .atom (.int 9)])])]
+    (createPages g [2, 5] 3 [("Pages", .atom (.ref 2))]).1 =
+      [⟨none, 90, (100, 2, 300, 10), (100, 2, 300, 10), some 7⟩,
+       ⟨some 5, 90, US_LETTER, US_LETTER, none⟩] := by
+  decide
+
 /-- `catalog["Pages"]` written as a direct Page dictionary: one page without object number. -/
-example : (createPages [] [] 1 [("Pages", .dict [("Type", .name "Page"), ("Rotate", .int 90)])]).1.map
+example : (createPages [] [] 1 [("Pages", .dict [("Type", .atom (.name "Page")), ("Rotate", .atom (.int 90))])]).1.map
     (fun p => (p.id, p.rotate)) = [(none, 90)] := by decide
 
 /-- **`resolve1` terminates.** The loop with the `seen` set never exhausts the budget "number of
@@ -279,6 +373,85 @@ example : getPagesS [0] 3 0 [10, 11] (some Err.objectNotFound) = ([10], some Err
 
 example : getPages [5, 1] 2 0 [10, 11, 12, 13, 14, 15] = [11] := by decide
 example : getPages [] 0 0 [10, 11, 12] = [10, 11, 12] := by decide
+
+/-- **Selection through the Python interface.** For `page_numbers` = `None` or *any* container of
+integers (empty, with duplicates, in any order, with negative numbers or numbers beyond the last
+page) and every `maxpages ≥ 0`, `get_pages` — and with it `extract_text`, `extract_pages`,
+`extract_text_to_fp`, which pass both arguments on unchanged — yields exactly the pages whose
+zero-based index is wanted (`None`/empty: all) and below the limit (0: none), in order; a pending
+exception of `create_pages` is raised iff the failing page's index is below the limit. -/
+theorem C04_select_py {α : Type} (pagenos : Option (List Int)) (maxpages : Int) (hmp : 0 ≤ maxpages)
+    (pages : List α) (e : Option Err) :
+    getPagesPy pagenos maxpages 0 pages e =
+      (specSelectPy pagenos maxpages pages,
+        if maxpages = 0 ∨ (pages.length : Int) < maxpages then e else none) := by
+  obtain ⟨m, rfl⟩ := Int.eq_ofNat_of_zero_le hmp
+  rw [select_stream_py pagenos m pages e 0 (by omega), specSelectPy_nat]
+  have hc : pastEnd m 0 pages.length ↔ ((m : Int) = 0 ∨ (pages.length : Int) < (m : Int)) := by
+    unfold pastEnd; omega
+  simp only [hc]
+
+/-- Duplicates, order and the kind of container do not matter: two containers with the same
+members select the same pages (for every `maxpages`, negative ones included). -/
+theorem C04_select_members {α : Type} (l1 l2 : List Int) (h : ∀ z, z ∈ l1 ↔ z ∈ l2) (maxpages : Int)
+    (pages : List α) (e : Option Err) :
+    getPagesPy (some l1) maxpages 0 pages e = getPagesPy (some l2) maxpages 0 pages e := by
+  apply getPagesPy_congr
+  · simp only [pagenosTruthy]
+    cases l1 with
+    | nil =>
+      cases l2 with
+      | nil => rfl
+      | cons y ys => exact absurd ((h y).mpr (by simp)) (by simp)
+    | cons x xs =>
+      cases l2 with
+      | nil => exact absurd ((h x).mp (by simp)) (by simp)
+      | cons y ys => rfl
+  · intro i
+    simp only [pagenoIn]
+    by_cases h1 : (i : Int) ∈ l1
+    · have h2 := (h _).mp h1; simp [h1, h2]
+    · have h2 : (i : Int) ∉ l2 := fun h2 => h1 ((h _).mpr h2); simp [h1, h2]
+
+/-- `page_numbers=None` and an empty container are the same request. -/
+theorem C04_select_none_empty {α : Type} (maxpages : Int) (pages : List α) (e : Option Err) :
+    getPagesPy none maxpages 0 pages e = getPagesPy (some []) maxpages 0 pages e :=
+  getPagesPy_congr none (some []) maxpages rfl (fun _ => rfl) pages 0 e
+
+/-- A non-empty container none of whose members is a page index (negative, or beyond the last
+page) selects nothing — it does *not* fall back to "all pages". -/
+theorem C04_select_out_of_range {α : Type} (l : List Int) (hne : l ≠ []) (maxpages : Int) (hmp : 0 ≤ maxpages)
+    (pages : List α) (e : Option Err) (hout : ∀ z ∈ l, z < 0 ∨ (pages.length : Int) ≤ z) :
+    (getPagesPy (some l) maxpages 0 pages e).1 = [] := by
+  rw [C04_select_py (some l) maxpages hmp pages e]
+  simp only [specSelectPy, List.map_eq_nil_iff, List.filter_eq_nil_iff]
+  intro pi hpi
+  have hlt : pi.2 < pages.length := by
+    have := List.snd_lt_of_mem_zipIdx hpi
+    simpa using this
+  have hemp : l.isEmpty = false := by cases l with
+    | nil => exact absurd rfl hne
+    | cons _ _ => rfl
+  have hnot : (pi.2 : Int) ∉ l := by
+    intro hm
+    rcases hout _ hm with h | h <;> omega
+  simp [wanted, hemp, hnot]
+
+/-- Outside the property's domain but part of the code: a negative `maxpages` acts like 1. -/
+theorem C04_select_negative_limit {α : Type} (pagenos : Option (List Int)) (maxpages : Int) (hneg : maxpages < 0)
+    (p : α) (ps : List α) (e : Option Err) :
+    getPagesPy pagenos maxpages 0 (p :: ps) e = (if wanted pagenos 0 then [p] else [], none) := by
+  have hb : select_break maxpages ((0 : Nat) : Int) = true := by
+    simp only [select_break, Bool.and_eq_true, bne_iff_ne, ne_eq, decide_eq_true_eq]
+    omega
+  simp only [getPagesPy, hb, if_true, select_yield_py]
+
+example : getPagesPy (some [5, 1, 1, -3, 40]) 2 0 [10, 11, 12, 13, 14, 15] (some Err.objectNotFound)
+    = ([11], none) := by decide
+example : getPagesPy (some [-1]) 0 0 [10, 11, 12] none = ([], none) := by decide
+example : getPagesPy (some []) 0 0 [10, 11, 12] none = ([10, 11, 12], none) := by decide
+example : getPagesPy none (-4) 0 [10, 11, 12] none = ([10], none) := by decide
+example : specSelectPy (some [2, 0, 2, 7]) 0 [10, 11, 12] = [10, 12] := by decide
 
 /-- The pinned `get_pages` (`continue` before the limit test) on `page_numbers = {5}`,
 `maxpages = 2`: page 5 is yielded although its index is not below the limit. -/
@@ -383,12 +556,74 @@ theorem C04_page_values (g : Store) (id : Option Nat) (res mb cb rot : Option Va
   have hm : Normalised (mkPage g id res mb cb rot).mediabox := by
     unfold mkPage
     cases mb with
-    | none => exact us_letter_normalised
-    | some v => exact box_default g v US_LETTER us_letter_normalised
+    | none => simpa [parse_mediabox] using us_letter_normalised
+    | some v =>
+      have := box_default g v US_LETTER us_letter_normalised
+      simp only [parse_mediabox, Option.isNone_some, Bool.false_eq_true, if_false, Option.bind_some]
+      cases h : parseBox g v <;> simpa [h] using this
   refine ⟨(hr _).1, (hr _).2, hm, ?_⟩
   unfold mkPage at hm ⊢
   cases cb with
-  | none => exact hm
-  | some v => exact box_default g v _ hm
+  | none => simpa [parse_cropbox] using hm
+  | some v =>
+    have := box_default g v _ hm
+    simp only [parse_cropbox, Option.isNone_some, Bool.false_eq_true, if_false, Option.bind_some]
+    cases h : parseBox g v <;> simpa [h] using this
+
+/-- **Defaults of `PDFPage.__init__`** (on the regenerated `_parse_mediabox` / `_parse_cropbox`
+structure): a missing or ill-formed MediaBox gives US Letter; a missing or ill-formed CropBox gives
+the page's MediaBox (whatever that turned out to be); a well-formed box gives its normalised value. -/
+theorem C04_box_defaults (g : Store) (id : Option Nat) (res mb cb rot : Option Val) :
+    ((mb = none ∨ ∃ v, mb = some v ∧ parseBox g v = none) → (mkPage g id res mb cb rot).mediabox = US_LETTER) ∧
+    ((cb = none ∨ ∃ v, cb = some v ∧ parseBox g v = none) →
+      (mkPage g id res mb cb rot).cropbox = (mkPage g id res mb cb rot).mediabox) ∧
+    (∀ v r, mb = some v → parseBox g v = some r → (mkPage g id res mb cb rot).mediabox = r) ∧
+    (∀ v r, cb = some v → parseBox g v = some r → (mkPage g id res mb cb rot).cropbox = r) := by
+  refine ⟨?_, ?_, ?_, ?_⟩
+  · rintro (h | ⟨v, h, hp⟩) <;> subst h <;> simp [mkPage, parse_mediabox, *]
+  · rintro (h | ⟨v, h, hp⟩) <;> subst h <;> simp [mkPage, parse_cropbox, *]
+  · intro v r h hp; subst h; simp [mkPage, parse_mediabox, hp]
+  · intro v r h hp; subst h; simp [mkPage, parse_cropbox, hp]
+
+example : (mkPage [] none none none (some (.arr [.atom (.int 1)])) none).cropbox = US_LETTER ∧
+    (mkPage [] none none (some (.arr [.atom (.int 9), .atom (.int 8), .atom (.int 1), .atom (.int 2)])) none none).cropbox
+      = (1, 2, 9, 8) := by decide
+
+/-- An integer `Rotate` that is a multiple of 90 (negative, beyond 360, …) is stored as one of the
+four quarter turns. -/
+theorem C04_rotate_quarter (r : Int) (h : r % 90 = 0) :
+    norm_rotate r = 0 ∨ norm_rotate r = 90 ∨ norm_rotate r = 180 ∨ norm_rotate r = 270 := by
+  simp only [norm_rotate, pyMod]
+  rw [Int.fmod_eq_emod_of_nonneg _ (by omega)]
+  omega
+
+/-- **Every constructed page lands on its turned sheet.** No hypothesis on the boxes is left: for
+every page `PDFPage.__init__` builds (whatever the entries: missing, swapped corners, ill-formed)
+whose Rotate is a multiple of 90, `process_page`/`begin_page` map every point of the (normalised)
+MediaBox coordinate system where the specification puts it, `LTPage.bbox` is `(0,0,w',h')` of the
+turned sheet, and the harness observation equals the specification. -/
+theorem C04_page_lands (g : Store) (id : Option Nat) (res mb cb rot : Option Val)
+    (hq : (mkPage g id res mb cb rot).rotate % 90 = 0) (p : Point) :
+    let pg := mkPage g id res mb cb rot
+    apply_matrix_pt (page_ctm pg.rotate pg.mediabox) p = (specDevice pg.rotate pg.mediabox p).1 ∧
+    begin_page_bbox (page_ctm pg.rotate pg.mediabox) pg.mediabox =
+      (0, 0, (specDevice pg.rotate pg.mediabox p).2.1, (specDevice pg.rotate pg.mediabox p).2.2) ∧
+    render pg.rotate pg.mediabox p = specRender pg.rotate pg.mediabox p := by
+  intro pg
+  obtain ⟨h0, h1, hn, _⟩ := C04_page_values g id res mb cb rot
+  have hrot : pg.rotate = 0 ∨ pg.rotate = 90 ∨ pg.rotate = 180 ∨ pg.rotate = 270 := by
+    have a0 : 0 ≤ pg.rotate := h0
+    have a1 : pg.rotate < 360 := h1
+    have a2 : pg.rotate % 90 = 0 := hq
+    omega
+  exact ⟨C04_ctm pg.rotate hrot pg.mediabox p, C04_ctm_bbox pg.rotate hrot pg.mediabox hn.1 hn.2 p,
+    C04_render pg.rotate hrot pg.mediabox hn.1 hn.2 p⟩
+
+/-- A page with `Rotate -90` and a MediaBox given by its upper-right and lower-left corners. -/
+example :
+    let pg := mkPage [] none none (some (.arr [.atom (.int 310), .atom (.int 420), .atom (.int 10), .atom (.int 20)]))
+      none (some (.atom (.int (-90))))
+    pg.rotate = 270 ∧ pg.rotate % 90 = 0 ∧ pg.mediabox = (10, 20, 310, 420) := by
+  decide
 
 end PdfVerif.Props.C04
